@@ -89,6 +89,8 @@ type prog struct {
 	Regen func(r *hxlib.Rng) (g, e []string)
 	// Parts: the source in pieces (nil: not available), for expose.go
 	Parts *srcParts
+	// Lib: class lib -- the library function the program calls ("import/path.Name")
+	Lib string
 }
 
 type gen struct {
